@@ -49,7 +49,7 @@ def build_free_running(sd, name, harness_src, repo_srcs, san="thread", extra_fla
     return exe
 
 
-def explore(exe, hargs, bound=-1, spur=0, procs=16, deadline=0, save=None, nohash=False, timeout=3600):
+def explore(exe, hargs, bound=-1, spur=0, procs=16, deadline=0, save=None, nohash=False, timeout=3600, unlock_points=False):
     argv = [exe, "--bound", str(bound), "--spur", str(spur), "--procs", str(procs)]
     if deadline:
         argv += ["--deadline", "%.1f" % deadline]
@@ -58,7 +58,7 @@ def explore(exe, hargs, bound=-1, spur=0, procs=16, deadline=0, save=None, nohas
     if nohash:
         argv += ["--nohash"]
     argv += ["--"] + [str(a) for a in hargs]
-    r = run_tool(argv, timeout=timeout)
+    r = run_tool(argv, timeout=timeout, env={"VS_UNLOCK_POINT": "1"} if unlock_points else None)
     try:
         j = json.loads(r.out.decode().strip().splitlines()[-1])
     except Exception:
